@@ -86,6 +86,11 @@ def obligations(tier):
                               "pyrtma.manager:MessageManager.pause_subscription", "pyrtma.manager:MessageManager.resume_subscription"],
                           bounds="histories of %s steps from the manager's initial state over {publish T, publish U, SUBSCRIBE/UNSUBSCRIBE/PAUSE/RESUME of T or U by one module, of ALL by another}" % ("3-8 (12 selected)" if tier == "quick" else "3-6 (all of length 3 that end in traffic, all two-change histories between publishes)"),
                           symbolic="both message types (int32, may coincide), payload size"))
+    # the sending side: what Client.send_message / send_signal put on the wire
+    obs.append(Obligation("client_frames_carry_what_the_caller_passed", "harness.c01_client", "frame", [{}], cond_timeout=120, path_timeout=30,
+                          reach="frame_reach", encoded=["pyrtma.client:Client.send_message", "pyrtma.client:Client.send_signal"],
+                          bounds="one send_message (44-byte payload) or send_signal from a connected client",
+                          symbolic="destination module/host ids (any int: in and out of the valid range), the client's module id 1..99, host id int16, signal type int32, running message count"))
     return obs
 
 MANIFEST = {
